@@ -35,13 +35,15 @@ LEVEL = 'exploration'
 ERR = list(ref.ERRORS)
 
 NUMBERS = [0, 1, -1, 2, 3.0, -8, 64, 0.5, -2.5, -0.0, 1e-3, 999999.5, -1000000]
-TEXTS = ['', 'abc', 'ABC', 'Abd', '3', ' 3 ', '1e2', '-0.5', 'TRUE']
+TEXTS = ['', 'abc', 'ABC', 'Abd', 'a_c', '3', ' 3 ', '1e2', '-0.5', 'TRUE']
 POOL = NUMBERS + TEXTS + [True, False, None] + ERR
 # texts on which only the cheap routes run: python-only / locale-only numeric spellings
 HOSTILE_TEXT = ['inf', 'nan', '-Infinity', 'false', '1_0', '0x10', '1,000', '$3', '3%', '1/2',
-                '１２', '+3', '3.', '.5', '1E+2', '- 3', '3 4', '1e', 'e1']
+                '１２', '+3', '3.', '.5', '1E+2', '- 3', '3 4', '1e', 'e1',
+                # characters that str.isdigit() accepts and int() rejects, digits of another script
+                '\u00b2', '\u2460', '\u00b3\u00b9', '\u0663', '\u00bd']
 ORDER_POOL = [v for v in POOL if ref.kind(v) not in ('error', 'blank')]
-TRIPLE_POOL = [0, -1, 2, 0.5, -0.0, 3.0, '', 'abc', 'ABC', 'Abd', '3', ' 3 ', True, False]
+TRIPLE_POOL = [0, -1, 2, 0.5, -0.0, 3.0, '', 'abc', 'ABC', 'Abd', 'a_c', '3', ' 3 ', True, False]
 
 PY_OP = {'+': 'Add', '-': 'Sub', '*': 'Mult', '/': 'Div', '^': 'Pow', '&': 'BitAnd',
          '=': 'Eq', '<>': 'NotEq', '<': 'Lt', '<=': 'LtE', '>': 'Gt', '>=': 'GtE'}
